@@ -70,7 +70,8 @@ CLAIMED["C04"] = dict(
          "cur-t and never twice; >, >=, < are exact; <= is exact unless the threshold was jumped over (refuted otherwise, witness); the "
          "once-only clock condition is exact; the last-applied action wins and actions are applied in ascending priority; and for the whole run of one "
          "AT TIME control (any instant, hydraulic/rule grids, duration, priority) a step is solved at exactly the instant -- off both grids too -- with "
-         "the commanded status, untouched before, kept after (induction through the presolve loop and over the steps). The model also "
+         "the commanded status, untouched before, kept after (induction through the presolve loop and over the steps); likewise a rule IF SYSTEM TIME "
+         ">= thr acts, for every threshold and grid, at the first multiple of the rule step that is >= thr (thr > 0). The model also "
          "proves (by evaluation) what the CURRENT code does wrong: daily clock-time controls act at 2x the threshold, 'before' clock "
          "conditions are never true, rules are evaluated at t=0 -- recorded as known findings. Tie decided inside coqc: the (time, status) "
          "trace of the real simulator equals Sched.run for every generated configuration of controls and rules (exact).",
